@@ -315,7 +315,8 @@ func (e *Engine) Load(name string) (*Template, error) {
 			}
 
 			LogError(ErrTemplateNotFound, errorDetails.String())
-			return nil, fmt.Errorf("%w: %s", ErrTemplateNotFound, errorDetails.String())
+			// Keep every loader's own error reachable through errors.Is / errors.As
+			return nil, &loadError{msg: fmt.Sprintf("%v: %s", ErrTemplateNotFound, errorDetails.String()), causes: loaderErrors}
 		}
 
 		LogError(ErrTemplateNotFound, fmt.Sprintf("Template '%s' not found. No loaders configured.", name))
@@ -330,6 +331,19 @@ func (e *Engine) Load(name string) (*Template, error) {
 	}
 
 	return template, nil
+}
+
+// loadError is returned by Load when no loader could provide a template. It matches
+// ErrTemplateNotFound and keeps the individual loader errors as wrapped causes.
+type loadError struct {
+	msg    string
+	causes []error
+}
+
+func (e *loadError) Error() string { return e.msg }
+
+func (e *loadError) Unwrap() []error {
+	return append([]error{ErrTemplateNotFound}, e.causes...)
 }
 
 // RegisterString registers a template from a string source
